@@ -77,7 +77,7 @@ def val_eq(e, g):
 def show(g):
     b = obs_bytes(g)
     if b is not None:
-        return "str" + json.dumps(list(b))
+        return repr(b)[1:]
     return json.dumps(g)
 
 
@@ -129,7 +129,10 @@ class Runner:
                         byid.setdefault(int(e[0]["i"]), []).append(e[1:])
                 if o.get("timeout") or o.get("crash"):
                     # the events of the whole chunk are lost: narrow down by running every call on its own
-                    if len(cs) == 1:
+                    if len(cs) == 1 and o.get("timeout") and not cs[0].get("retried"):
+                        cs[0]["retried"] = True      # confirm a hang with a longer watchdog (loaded machine)
+                        nxt.append((cs, 3 * to))
+                    elif len(cs) == 1:
                         cs[0]["ev"] = []
                         if o.get("timeout"):
                             cs[0]["fate"], cs[0]["detail"] = "hang", "no result within %d ms" % to
@@ -177,6 +180,23 @@ def str_part(rep, drv, tier):
     tags = cov.setdefault("string_cases_by_class", {})
     for cfg, sim, depth in runs:
         cases = []
+        st = {"n": 0, "bad": 0}
+
+        def flush():
+            Runner(drv, "", rep).run(cases)
+            for c in cases:
+                cov["traces_validated_against_impl"] += 1
+                why = str_compare(c)
+                if why:
+                    st["bad"] += 1
+                    sig = {"fn": c["fn"], "why": c["tag"], "kind": why[0]}
+                    rep.violation(sig, {"cmd": "lua-run", "src": c["lua"], "expected": c["r"], "observed": c.get("ev"),
+                                        "fate": c["fate"], "detail": why[1], "args": c["args"]})
+                elif c["tag"] in ("BB", "init>1:fail", "n=0") and c["r"] != ["error"]:
+                    rep.sample({"lua": c["lua"], "observed": c["ev"]}, cap=4)
+            st["n"] += len(cases)
+            del cases[:]
+
         res = run_tlc("StrLibMC", cfg, timeout=1500, simulate=sim, depth=depth, workers=1 if sim else None)
         if res.violation:
             raise Infra("StrLib TLC run failed: " + res.violation)
@@ -191,24 +211,15 @@ def str_part(rep, drv, tier):
                 classes[fn] = classes.get(fn, 0) + 1
                 tk = fn + ":" + tag
                 tags[tk] = tags.get(tk, 0) + 1
+            if len(cases) >= 150000:
+                flush()
+        flush()
         del res.emitted[:]
         cov["states"] += res.distinct
         cov["transitions"] += res.generated
-        Runner(drv, "", rep).run(cases)
-        bad = 0
-        for c in cases:
-            cov["traces_validated_against_impl"] += 1
-            why = str_compare(c)
-            if why:
-                bad += 1
-                sig = {"fn": c["fn"], "why": c["tag"], "kind": why[0]}
-                rep.violation(sig, {"cmd": "lua-run", "src": c["lua"], "expected": c["r"], "observed": c.get("ev"),
-                                    "fate": c["fate"], "detail": why[1], "args": c["args"]})
-            elif c["tag"] in ("BB", "init>1:fail", "n=0") and c["r"] != ["error"]:
-                rep.sample({"lua": c["lua"], "observed": c["ev"]}, cap=4)
-        cov["configs"].append({"cfg": cfg, "distinct": res.distinct, "generated": res.generated, "cases": len(cases),
-                               "mismatching": bad, "tlc_s": round(res.wall, 1)})
-        log("[%s] %s: %d states, %d string calls compared, %d mismatching" % (rep.prop, cfg, res.distinct, len(cases), bad))
+        cov["configs"].append({"cfg": cfg, "distinct": res.distinct, "generated": res.generated, "cases": st["n"],
+                               "mismatching": st["bad"], "tlc_s": round(res.wall, 1)})
+        log("[%s] %s: %d states, %d string calls compared, %d mismatching" % (rep.prop, cfg, res.distinct, st["n"], st["bad"]))
 
 
 def str_compare(c):
@@ -353,6 +364,8 @@ def tab_compare(c):
     if len(rs) != 1:
         return ("events", "expected one result event, got %d" % len(rs))
     ok, vals = rs[0][1], rs[0][2:]
+    if cs["k"] == "unspec":
+        return None
     if cs["k"] == "error":
         if ok is not False:
             return ("error-expected", "no error; returned %s" % [show(v) for v in vals])
@@ -360,10 +373,10 @@ def tab_compare(c):
     if ok is not True:
         return ("unexpected-error", "raised %s" % show(vals[0] if vals else None))
     if cs["r"] == ["dest"]:
-        if vals != [True, 0]:
+        if vals != [True, {"i": "0"}]:
             return ("value", "table.move must return exactly the destination table; got (same, extra) = %s" % vals)
     elif cs["r"] == ["packed"]:
-        if vals != [True, 0]:
+        if vals != [True, {"i": "0"}]:
             return ("value", "table.pack must return exactly one table; got (is table, extra) = %s" % vals)
     elif len(vals) != len(cs["r"]) or not all(val_eq(e, g) for e, g in zip(cs["r"], vals)):
         return ("value", "expected %s got %s" % (json.dumps(cs["r"]), [show(v) for v in vals]))
